@@ -132,6 +132,9 @@ mod monitor {
     loom::lazy_static! {
         static ref MON: Mutex<Mon> = Mutex::new(Mon { sleepers: 0, stale: 0 });
         static ref CV: Condvar = Condvar::new();
+        // the harness thread waiting in `advance_when_idle` sleeps on its own condition variable:
+        // if sleepers announced themselves on `CV`, two timed sleepers would wake each other forever
+        static ref IDLE_CV: Condvar = Condvar::new();
     }
 
     pub(super) fn lock() -> MutexGuard<'static, Mon> {
@@ -142,6 +145,13 @@ mod monitor {
     }
     pub(super) fn notify_all() {
         CV.notify_all();
+        IDLE_CV.notify_all();
+    }
+    pub(super) fn wait_idle(g: MutexGuard<'static, Mon>) -> MutexGuard<'static, Mon> {
+        IDLE_CV.wait(g).unwrap()
+    }
+    pub(super) fn notify_idle_waiter() {
+        IDLE_CV.notify_all();
     }
 }
 
@@ -250,7 +260,7 @@ pub mod time {
             if give_up() {
                 return false;
             }
-            g = monitor::wait(g);
+            g = monitor::wait_idle(g);
         }
     }
 
@@ -274,7 +284,7 @@ pub mod time {
                     return false;
                 }
                 g.sleepers += 1;
-                monitor::notify_all();
+                monitor::notify_idle_waiter();
                 g = monitor::wait(g);
                 g.sleepers -= 1;
                 g.stale = g.stale.saturating_sub(1);
